@@ -46,6 +46,7 @@ fn today() -> i64 {
 
 struct State {
     calc: Option<SmartCalc>,
+    calc2: Option<SmartCalc>, // a second calculator alive in the same process (cases with "two": true; steps with "calc": 2)
     dirty: bool,
     sessions: BTreeMap<String, Session>,
     log: CallLog,
@@ -171,8 +172,15 @@ fn first_output(prev: &Value, step: usize, line: usize) -> Option<String> {
 fn do_step(st: &mut State, step: &Value, want: &Want, prev: &Vec<Value>) -> Value {
     let op = s(step, "op");
     let prevv = Value::Array(prev.clone());
-    let State { calc, dirty, sessions, log } = st;
-    let calc = calc.as_mut().unwrap();
+    let State { calc, calc2, dirty, sessions, log } = st;
+    let calc = if step["calc"].as_u64() == Some(2) {
+        match calc2.as_mut() {
+            Some(c) => c,
+            None => return json!({"outcome": "toolerror", "why": "no second calculator in this case"}),
+        }
+    } else {
+        calc.as_mut().unwrap()
+    };
     match op {
         "execute" => {
             let text = if step.get("text_from").is_some() {
@@ -323,6 +331,13 @@ fn run_case(st: &mut State, case: &Value) -> Value {
     if fresh {
         st.dirty = true; // a case that asked for a private calculator does not hand it on
     }
+    st.calc2 = None;
+    if b(&case["two"], false) {
+        match catch_unwind(|| SmartCalc::default()) {
+            Ok(c) => st.calc2 = Some(c),
+            Err(_) => return json!({"id": id, "outcome": "toolerror", "why": "SmartCalc::default panicked"}),
+        }
+    }
     st.sessions.clear();
     st.log.borrow_mut().clear();
     let mut want = Want::default();
@@ -347,6 +362,12 @@ fn run_case(st: &mut State, case: &Value) -> Value {
             }
         }
     };
+    if let Some(c2) = st.calc2.as_mut() {
+        if catch_unwind(AssertUnwindSafe(|| apply_cfg(c2, &case["cfg"]))).is_err() {
+            st.calc2 = None;
+            return json!({"id": id, "outcome": "panic", "where": "cfg", "panic": take_panic()});
+        }
+    }
     let mut out: Vec<Value> = Vec::new();
     let empty = Vec::new();
     let steps = case["steps"].as_array().unwrap_or(&empty);
@@ -405,7 +426,7 @@ pub fn main() {
         };
         LAST_PANIC.with(|p| *p.borrow_mut() = Some((loc, msg)));
     }));
-    let mut st = State { calc: None, dirty: false, sessions: BTreeMap::new(), log: Rc::new(RefCell::new(Vec::new())) };
+    let mut st = State { calc: None, calc2: None, dirty: false, sessions: BTreeMap::new(), log: Rc::new(RefCell::new(Vec::new())) };
     let stdin = std::io::stdin();
     let stdout = std::io::stdout();
     for line in stdin.lock().lines() {
